@@ -445,7 +445,8 @@ def to_jsonable(x):
 #   translated (structurally):  merge's fresh-id arithmetic and join validation, del_axes,
 #       build_contraction_tree's first intermediate id and bump rule, as_einsum's sort key and
 #       axes_map rule, every `return False` condition of is_consistent, the preconditions of
-#       rename_tensor / rename_bond / SymbolicBond / SymbolicTensor.transpose
+#       rename_tensor (public guard + delegation) / _rename_tensor / rename_bond / SymbolicBond /
+#       SymbolicTensor.transpose (normalisation of negative axes, permutation test, selection)
 #   pinned (normalised source text must equal the expected text, else Unsupported):
 #       the loop skeleton of is_consistent, the pair-repetition test, the first-occurrence rule
 import ast as _ast
@@ -466,13 +467,16 @@ class X:
     """typed expression translator.  env: normalised python source of a sub-expression -> (coq, type).
     types: Z nat int(literal) bool zlist nlist tdict bdict tensor bond"""
 
-    def __init__(self, env):
+    def __init__(self, env, nonneg=()):
         self.env = dict(env)
+        # source texts of integer expressions KNOWN to be >= 0 where they are used as an index (established by
+        # the caller from the guards in front); only these may index a list while being of type Z
+        self.nonneg = frozenset(nonneg)
 
     def sub(self, **more):
         e = dict(self.env)
         e.update(more)
-        return X(e)
+        return X(e, self.nonneg)
 
     # ---- coercions
     @staticmethod
@@ -564,6 +568,9 @@ class X:
         if isinstance(n, _ast.Subscript):
             c, t = self.e(n.value)
             i, ti = self.fix(self.e(n.slice), "nat")
+            if ti == "Z" and _u(n.slice) in self.nonneg:
+                # Python would count a negative index from the end; the caller has established i >= 0
+                i, ti = "(Z.to_nat %s)" % i, "nat"
             if ti != "nat":
                 raise _Unsupported("index of type %s in %s" % (ti, key))
             if t == "zlist":
@@ -615,6 +622,14 @@ class X:
             if (tb == "nlist") != (ta == "nat"):
                 raise _Unsupported("membership of %s in %s" % (ta, tb))
             return (c if isinstance(op, _ast.In) else "(negb %s)" % c), "bool"
+        if L[1] in ("zlist", "nlist") or R[1] in ("zlist", "nlist"):
+            # equality of integer lists (e.g. sorted(axes) != list(range(ndim)))
+            if not isinstance(op, (_ast.Eq, _ast.NotEq)) or {L[1], R[1]} - {"zlist", "nlist"}:
+                raise _Unsupported("comparison of lists: " + key)
+            za = L[0] if L[1] == "zlist" else "(map Z.of_nat %s)" % L[0]
+            zb = R[0] if R[1] == "zlist" else "(map Z.of_nat %s)" % R[0]
+            c = "(zlist_eqb %s %s)" % (za, zb)
+            return (c if isinstance(op, _ast.Eq) else "(negb %s)" % c), "bool"
         a, b, t = self.num2(L, R)
         m = "Z" if t == "Z" else "Nat"
         tab = {"Eq": "%s.eqb %s %s", "Lt": "%s.ltb %s %s", "LtE": "%s.leb %s %s"}
@@ -816,10 +831,10 @@ def generate():
     # the two relabelling loops: rename(id, next); [if tid == -1: tmp = next]; next += 1
     loops = [n for n in mg.body if isinstance(n, _ast.For) and _u(n.iter) in ("shared_tids", "shared_bids")]
     _expect(len(loops) == 2, "relabelling loops of merge")
-    for lp, (it, var, ren, nxt) in zip(loops, [("shared_tids", "tid", "rename_tensor", "next_tid"), ("shared_bids", "bid", "rename_bond", "next_bid")]):
+    for lp, (it, var, ren, nxt) in zip(loops, [("shared_tids", "tid", "_rename_tensor", "next_tid"), ("shared_bids", "bid", "rename_bond", "next_bid")]):
         _expect(_u(lp.iter) == it and _u(lp.target) == var, "loop header " + _u(lp.iter))
         body = lp.body
-        _expect(_u(body[0]) == "other.%s(%s, %s)" % (ren, var, nxt), "first statement of the %s loop: %s" % (it, _u(body[0])))
+        _expect(_u(body[0]) == "other.%s(%s, %s)" % (ren, var, nxt), "first statement of the %s loop must be other.%s(...): %s" % (it, ren, _u(body[0])))
         last = body[-1]
         _expect(isinstance(last, _ast.AugAssign) and _u(last.target) == nxt and isinstance(last.op, _ast.Add), "increment of " + nxt)
         inc, ti = X({nxt: ("next", "Z")}).e(_ast.BinOp(left=_ast.Name(id=nxt), op=_ast.Add(), right=last.value))
@@ -834,15 +849,28 @@ def generate():
     _expect(_u(_one(_assigns(mg, "shared_tids"), "shared_tids").value) == "self.tensors.keys() & other.tensors.keys()", "shared_tids")
     _expect(_u(_one(_assigns(mg, "shared_bids"), "shared_bids").value) == "self.bonds.keys() & other.bonds.keys()", "shared_bids")
     # join validation: for joinax in join_axes: if c: raise ValueError ...
+    # (range of the first component, range of the second, equal dimensions) - all inside ONE loop over
+    # join_axes that precedes every statement changing state, in this order (the third test indexes
+    # shape with joinax[k], which is only the k-th entry because the tests in front have excluded k < 0)
     gs = _guards(mg)
-    _expect(len(gs) == 2, "merge must have exactly two ValueError guards, found %d" % len(gs))
-    jx = X({"joinax[0]": ("j0", "Z"), "joinax[1]": ("j1", "Z"), "self.num_open_axes": ("n1", "nat"), "other.num_open_axes": ("n2", "nat")})
+    _expect(len(gs) == 3, "merge must have exactly three ValueError guards (two range tests, the dimension test), found %d" % len(gs))
+    jloops = [st for st in _pyx.body_nodoc(mg) if isinstance(st, _ast.For) and _u(st.iter) == "join_axes" and _u(st.target) == "joinax"]
+    _expect(len(jloops) == 2, "merge must loop twice over join_axes (validation, joining)")
+    _expect(list(jloops[0].body) == gs, "the validation loop of merge must consist of exactly the three guards")
+    first_change = [i for i, st in enumerate(_pyx.body_nodoc(mg)) if not (isinstance(st, _ast.If) and _u(st.test) == "join_axes is None")][0]
+    _expect(_pyx.body_nodoc(mg)[first_change] is jloops[0], "the validation loop must be the first statement of merge after the default for join_axes")
+    for k in (0, 1):
+        tst = gs[k].test
+        _expect(isinstance(tst, _ast.BoolOp) and isinstance(tst.op, _ast.Or) and _u(tst.values[0]) == "joinax[%d] < 0" % k,
+                "range test %d of merge does not start with joinax[%d] < 0: %s" % (k, k, _u(tst)))
+    jenv = {"joinax[0]": ("j0", "Z"), "joinax[1]": ("j1", "Z"), "self.num_open_axes": ("n1", "nat"), "other.num_open_axes": ("n2", "nat"),
+            "self.shape": ("s1", "nlist"), "other.shape": ("s2", "nlist")}
     cs = []
-    for g in gs:
-        c, t = jx.e(g.test)
+    for k, g in enumerate(gs):
+        c, t = X(jenv, nonneg=("joinax[0]", "joinax[1]") if k == 2 else ()).e(g.test)
         _expect(t == "bool", "guard type")
         cs.append(c)
-    out.append(_defn("gen_merge_join_refused", [("j0 j1", "Z"), ("n1 n2", "nat")], "(%s || %s)" % tuple(cs), "bool"))
+    out.append(_defn("gen_merge_join_refused", [("j0 j1", "Z"), ("n1 n2", "nat"), ("s1 s2", "list nat")], "(%s || %s || %s)" % tuple(cs), "bool"))
     # del_axes
     da = _one(_assigns(mg, "del_axes"), "del_axes")
     c, t = X({"tensor_open_axes.ndim": ("ndim", "nat"), "axes_map": ("amap", "nlist")}).e(da.value)
@@ -864,34 +892,60 @@ def generate():
         out.append(_defn("gen_merge_keep_" + attr, [("l", d), ("amap", "list nat")], c, d))
 
     # ------------------------------------------------------------------ renames, bond, transpose: preconditions
-    for fname, a, b, dn, dty in (("rename_tensor", "tid_cur", "tid_new", "self.tensors", "tdict"),
-                                 ("rename_bond", "bid_cur", "bid_new", "self.bonds", "bdict")):
+    for fname, gname, a, b, dn, dty in (("_rename_tensor", "rename_tensor_priv", "tid_cur", "tid_new", "self.tensors", "tdict"),
+                                        ("rename_bond", "rename_bond", "bid_cur", "bid_new", "self.bonds", "bdict")):
         gs = _guards(_fn(STN, fname))
         _expect(len(gs) == 2, fname + " guards")
         xx = X({a: ("a", "Z"), b: ("c", "Z"), dn: ("D", dty)})
         cs = [xx.e(g.test) for g in gs]
         _expect(all(t == "bool" for _, t in cs), fname + " guard types")
-        out.append(_defn("gen_%s_refused" % fname, [("a c", "Z"), ("D", "dict %s" % ("tensor" if dty == "tdict" else "bond"))],
+        out.append(_defn("gen_%s_refused" % gname, [("a c", "Z"), ("D", "dict %s" % ("tensor" if dty == "tdict" else "bond"))],
                          "(%s || %s)" % (cs[0][0], cs[1][0]), "bool"))
+    # the public rename_tensor: one guard (the virtual tensor), then the private worker - nothing else
+    rt = _pyx.body_nodoc(_fn(STN, "rename_tensor"))
+    _expect(len(rt) == 2 and isinstance(rt[0], _ast.If) and _raises_value_error(rt[0])
+            and _u(rt[1]) == "self._rename_tensor(tid_cur, tid_new)",
+            "rename_tensor is not `if <guard>: raise ValueError; self._rename_tensor(tid_cur, tid_new)`")
+    c, t = X({"tid_cur": ("a", "Z"), "tid_new": ("c", "Z")}).e(rt[0].test)
+    _expect(t == "bool", "rename_tensor guard type")
+    out.append(_defn("gen_rename_tensor_refused", [("a c", "Z")], c, "bool"))
     g = _one(_guards(_fn(SB, "__init__")), "SymbolicBond guard")
     c, t = X({"tids": ("tids", "zlist")}).e(g.test)
     out.append(_defn("gen_bond_refused", [("tids", "list Z")], c, "bool"))
     c, t = X({"tids": ("tids", "zlist")}).e(_one(_assigns(_fn(SB, "__init__"), "self.tids"), "self.tids").value)
     _expect(t == "zlist", "SymbolicBond.tids")
     out.append(_defn("gen_bond_tids", [("tids", "list Z")], c, "list Z"))
+    # SymbolicTensor.transpose: [default for axes=None]; axes = <normalisation>; if <guard>: raise ValueError;
+    # self.shape = ...; self.bids = ...; return self      - in this order, nothing else
     tr = _fn(ST, "transpose")
-    g = _one(_guards(tr), "SymbolicTensor.transpose guard")
-    _expect(_u(g.test) == "len(set(axes)) != len(axes)", "transpose guard is not the distinctness test: " + _u(g.test))
-    out.append("(* pinned: `len(set(axes)) != len(axes)`  =  the axes repeat an entry *)\n"
-               "Definition gen_transpose_refused (axes : list nat) : bool := negb (nnodupb axes).\n")
-    for attr, ty, d, z in (("shape", "nlist", "list nat", "0%nat"), ("bids", "zlist", "list Z", "0%Z")):
-        asg = _one(_assigns(tr, "self." + attr), "self.%s in transpose" % attr)
-        v = asg.value
+    tb = _pyx.body_nodoc(tr)
+    _expect(len(tb) == 6 and isinstance(tb[0], _ast.If) and _u(tb[0].test) == "axes is None" and not tb[0].orelse
+            and [_u(x) for x in tb[0].body] == ["axes = list(reversed(range(self.ndim)))"]
+            and isinstance(tb[1], _ast.Assign) and _u(tb[1].targets[0]) == "axes"
+            and isinstance(tb[2], _ast.If) and _raises_value_error(tb[2])
+            and isinstance(tb[3], _ast.Assign) and _u(tb[3].targets[0]) == "self.shape"
+            and isinstance(tb[4], _ast.Assign) and _u(tb[4].targets[0]) == "self.bids"
+            and _u(tb[5]) == "return self",
+            "statement skeleton of SymbolicTensor.transpose changed: " + " | ".join(_u(x).split("\n")[0] for x in tb))
+    tx = X({"axes": ("axes", "zlist"), "self.ndim": ("ndim", "nat")})
+    c, t = tx.e(tb[1].value)
+    _expect(t == "zlist", "normalised axes of transpose")
+    out.append(_defn("gen_transpose_norm", [("ndim", "nat"), ("axes", "list Z")], c, "list Z"))
+    c, t = tx.e(tb[2].test)
+    _expect(t == "bool", "transpose guard type")
+    out.append("(* the guard reads the NORMALISED axes *)\n" +
+               _defn("gen_transpose_refused", [("ndim", "nat"), ("axes0", "list Z")],
+                     "let axes := gen_transpose_norm ndim axes0 in %s" % c, "bool"))
+    for st, attr, ty, d in ((tb[3], "shape", "nlist", "list nat"), (tb[4], "bids", "zlist", "list Z")):
+        v = st.value
         if isinstance(v, _ast.Call) and _u(v.func) == "tuple" and len(v.args) == 1 and isinstance(v.args[0], _ast.GeneratorExp):
             v = _ast.ListComp(elt=v.args[0].elt, generators=v.args[0].generators)
-        c, t = X({"self." + attr: ("l", ty), "axes": ("axes", "nlist")}).e(v)
+        _expect(isinstance(v, _ast.ListComp) and len(v.generators) == 1 and _u(v.generators[0].target) == "ax"
+                and _u(v.generators[0].iter) == "axes", "transposed %s is not a comprehension over axes" % attr)
+        # behind the guard every entry of (the normalised) axes lies in range(ndim): ax >= 0
+        c, t = X({"self." + attr: ("l", ty), "axes": ("axes", "zlist")}, nonneg=("ax",)).e(v)
         _expect(t == ty, "transposed " + attr)
-        out.append(_defn("gen_transpose_" + attr, [("l", d), ("axes", "list nat")], c, d))
+        out.append(_defn("gen_transpose_" + attr, [("l", d), ("axes", "list Z")], c, d))
 
     # ------------------------------------------------------------------ contraction tree ids
     bt = _fn(STN, "build_contraction_tree")
